@@ -193,7 +193,7 @@ def gen_config(rng, default_bias=0.4):
     else:
         beta = DEFAULTS["beta"] * 10 ** rng.uniform(-3, 3)
         kappa = rng.choice([1e-4, 1e-6, 1e-2, 10 ** rng.uniform(-8, -2)])
-        tau = rng.choice([0.0, 1e-9 * beta, beta / 50, beta * 2, beta / 50])
+        tau = rng.choice([0.0, 1e-9 * beta, beta / 50, beta * 2, beta / 50, 1e-6 * beta, 3e-8 * beta])
     return beta, kappa, tau
 
 
